@@ -33,14 +33,13 @@ Section Run.
   Variable stores : list store.
   Variable grp : Z.
   Variable guard : Z -> Z -> bool.
-  Variable fixed : bool.
   Variable rs : list Z.
   Variable e : store -> bool.
   Variable g : gdist.
 
   Lemma peer_choices_in a p c :
-    In c (peer_choices stores grp guard fixed rs e g a p) ->
-    c = p_store p \/ (~ In c (a_selected a) /\ ~ In c (others fixed rs (p_store p))).
+    In c (peer_choices stores grp guard rs e g a p) ->
+    c = p_store p \/ (~ In c (a_selected a) /\ ~ In c (others rs (p_store p))).
   Proof.
     unfold peer_choices. destruct (find_store stores (p_store p)); [|cbn; intros [H|[]]; auto].
     intros H. apply choices_in in H as [H|H]; [left; exact H|right].
@@ -59,7 +58,7 @@ Section Run.
   Qed.
 
   Lemma run_order_tidy order : forall a done out,
-    In out (run_order stores grp guard fixed rs e g a order) ->
+    In out (run_order stores grp guard rs e g a order) ->
     a_clash out = false ->
     (a_clash a = false -> tidy a done) ->
     a_clash a = false /\ tidy out (done ++ order).
@@ -85,7 +84,7 @@ Section Run.
   Qed.
 
   Theorem clash_free_keeps_every_peer order out :
-    In out (run_order stores grp guard fixed rs e g (Acc [] [] false) order) ->
+    In out (run_order stores grp guard rs e g (Acc [] [] false) order) ->
     a_clash out = false ->
     map snd (a_targets out) = map p_role order /\ NoDup (map fst (a_targets out))
     /\ List.length (a_targets out) = List.length order.
@@ -100,7 +99,7 @@ Section Run.
   Qed.
 End Run.
 
-(* ---------- the repaired selection rule never clashes ---------- *)
+(* ---------- the selection rule (region's other stores excluded) never clashes ---------- *)
 Section Fixed.
   Variable stores : list store.
   Variable grp : Z.
@@ -109,10 +108,10 @@ Section Fixed.
 
   Definition safe_sel (a : acc) (remaining : list Z) : Prop := forall s, In s (a_selected a) -> ~ In s remaining.
 
-  Lemma fixed_no_clash e g order : forall rem a out,
+  Lemma never_clashes e g order : forall rem a out,
     NoDup (stores_of order ++ rem) -> incl (stores_of order ++ rem) rs ->
     a_clash a = false -> safe_sel a (stores_of order ++ rem) ->
-    In out (run_order stores grp guard true rs e g a order) ->
+    In out (run_order stores grp guard rs e g a order) ->
     a_clash out = false /\ safe_sel out rem.
   Proof.
     induction order as [|p rest IH]; intros rem a out Hnd Hincl Hc Hs Hin; cbn [run_order] in Hin.
@@ -162,10 +161,10 @@ Qed.
 Lemma NoDup_app_r {A} (a b : list A) : NoDup (a ++ b) -> NoDup b.
 Proof. induction a as [|x a IH]; cbn; intros H; [exact H|]. inversion H; auto. Qed.
 
-(* ---------- scatter with the repaired selection rule preserves the peers of every role ---------- *)
-Theorem scatter_fixed_preserves_roles stores st grp guard r o :
+(* ---------- scatter preserves the peers of every role ---------- *)
+Theorem scatter_preserves_roles stores st grp guard r o :
   NoDup (stores_of (peers r)) ->
-  In o (scatter_outcomes true stores st grp guard r) ->
+  In o (scatter_outcomes stores st grp guard r) ->
   o_clash o = false
   /\ Permutation (map snd (o_targets o)) (map p_role (peers r))
   /\ NoDup (map fst (o_targets o))
@@ -187,18 +186,18 @@ Proof.
   assert (Inc : incl (stores_of o1 ++ stores_of o2) (stores_of (peers r))).
   { intros x Hx. eapply Permutation_in; [exact Pst|exact Hx]. }
   (* phase 1: the ordinary peers *)
-  destruct (fixed_no_clash stores grp guard (stores_of (peers r)) is_ordinary (sc_ord st) o1 (stores_of o2) (Acc [] [] false) a1 Nd Inc eq_refl)
+  destruct (never_clashes stores grp guard (stores_of (peers r)) is_ordinary (sc_ord st) o1 (stores_of o2) (Acc [] [] false) a1 Nd Inc eq_refl)
     as [C1 S1]; [intros s []|exact Ha1|].
   (* phase 2: the tiflash peers *)
   assert (Nd2 : NoDup (stores_of o2 ++ [])). { rewrite app_nil_r. apply NoDup_app_r in Nd. exact Nd. }
   assert (Inc2 : incl (stores_of o2 ++ []) (stores_of (peers r))).
   { rewrite app_nil_r. intros x Hx. apply Inc. apply in_or_app. right; exact Hx. }
-  destruct (fixed_no_clash stores grp guard (stores_of (peers r)) (has_engine val_tiflash) (sc_tf st) o2 [] a1 a2 Nd2 Inc2 C1) as [C2 _];
+  destruct (never_clashes stores grp guard (stores_of (peers r)) (has_engine val_tiflash) (sc_tf st) o2 [] a1 a2 Nd2 Inc2 C1) as [C2 _];
     [rewrite app_nil_r; exact S1|exact Ha2|].
   (* tidy through both phases *)
-  destruct (run_order_tidy stores grp guard true (stores_of (peers r)) is_ordinary (sc_ord st) o1 (Acc [] [] false) [] a1 Ha1 C1) as [_ T1].
+  destruct (run_order_tidy stores grp guard (stores_of (peers r)) is_ordinary (sc_ord st) o1 (Acc [] [] false) [] a1 Ha1 C1) as [_ T1].
   { intros _. unfold tidy; cbn. repeat split; constructor. }
-  destruct (run_order_tidy stores grp guard true (stores_of (peers r)) (has_engine val_tiflash) (sc_tf st) o2 a1 ([] ++ o1) a2 Ha2 C2 (fun _ => T1))
+  destruct (run_order_tidy stores grp guard (stores_of (peers r)) (has_engine val_tiflash) (sc_tf st) o2 a1 ([] ++ o1) a2 Ha2 C2 (fun _ => T1))
     as [_ (U1 & U2 & U3)].
   cbn [app] in U3.
   split; [exact C2|]. split; [|split].
@@ -207,23 +206,18 @@ Proof.
   - rewrite <- (map_length snd), U3, map_length. apply Permutation_length. exact Pall.
 Qed.
 
-(* ---------- the code as it is: a replica can be lost ---------- *)
-(* S12: group counters {store 1: 1, store 3: 1}, healthy stores 1..3, region on 1,2,3, processing order 1,2,3:
-   the peer of store 1 goes to store 2 (the only store below the maximum), the peer of store 2 has no candidate
-   left and "stays" on the store that was just given away, the peer of store 3 stays: targets = {2, 3} *)
+(* ---------- the S12 history (regression) ---------- *)
+(* group counters {store 1: 1, store 3: 1}, healthy stores 1..3, region on 1,2,3, processing order 1,2,3.
+   Before the fix the peer of store 1 went to store 2 (the only store below the maximum), the peer of store 2 had
+   no candidate left and "stayed" on the store that was just given away: targets = {2, 3}, a replica lost.
+   Now store 2 is not a candidate for the peer of store 1 and all three peers stay. *)
 Definition s12_store (id : Z) : store := Store id SUp false false false false false false false false false false [].
 Definition s12_stores : list store := [s12_store 1; s12_store 2; s12_store 3].
 Definition s12_peers : list peer := [Peer 11 1 Voter; Peer 12 2 Voter; Peer 13 3 Voter].
 Definition s12_counters : gdist := [(1, [(1, 1); (3, 1)])].
 
-Lemma s12_witness :
-  run_order s12_stores 1 (fun _ _ => true) false [1; 2; 3] is_ordinary s12_counters (Acc [] [] false) s12_peers
-  = [Acc [(2, Voter); (3, Voter)] [3; 2; 2] true].
-Proof. vm_compute. reflexivity. Qed.
-
-(* with the repaired rule the same input keeps all three peers *)
-Lemma s12_fixed :
-  run_order s12_stores 1 (fun _ _ => true) true [1; 2; 3] is_ordinary s12_counters (Acc [] [] false) s12_peers
+Lemma s12_regression :
+  run_order s12_stores 1 (fun _ _ => true) [1; 2; 3] is_ordinary s12_counters (Acc [] [] false) s12_peers
   = [Acc [(1, Voter); (2, Voter); (3, Voter)] [3; 2; 1] false].
 Proof. vm_compute. reflexivity. Qed.
 
@@ -244,8 +238,8 @@ Proof.
 Qed.
 
 (* a peer is scattered only to its own store or to an up store that passed the exclusion of the already selected stores *)
-Theorem scatter_target_good stores grp guard fixed rs e g a p c :
-  In c (peer_choices stores grp guard fixed rs e g a p) ->
+Theorem scatter_target_good stores grp guard rs e g a p c :
+  In c (peer_choices stores grp guard rs e g a p) ->
   c = p_store p \/ (~ In c (a_selected a) /\ exists s, In s stores /\ sid s = c /\ up_store s /\ e s = true).
 Proof.
   unfold peer_choices. destruct (find_store stores (p_store p)) as [s0|]; [|cbn; intros [H|[]]; auto].
@@ -266,13 +260,16 @@ Proof.
   destruct (sst s); try reflexivity; [specialize (F2 ltac:(tauto))|specialize (F1 ltac:(tauto))]; discriminate.
 Qed.
 
-(* balance-region / shuffle-region: every admissible target is an up store outside the region, hence differs from the source *)
-Theorem move_target_good stores r dst :
-  In dst (move_targets Gen_C11.balance_region_target_flags stores r) ->
-  In dst stores /\ ~ In (sid dst) (stores_of (peers r)) /\ up_store dst /\ special_use dst = false
+(* peer moves of any scheduler whose StoreStateFilter literal is {MoveRegion} (balance-region, shuffle-region, hot-region,
+   shuffle-hot-region, scatter-range): every admissible target is an up store outside the region, hence differs from the
+   source, and is not refused by the scheduler's special-use filter *)
+Theorem move_target_good flags su stores r dst :
+  flags = [MoveRegion] ->
+  In dst (move_targets flags su stores r) ->
+  In dst stores /\ ~ In (sid dst) (stores_of (peers r)) /\ up_store dst /\ su dst = false
   /\ (forall src, In src (stores_of (peers r)) -> src <> sid dst).
 Proof.
-  destruct move_flags_ok as [-> _]. unfold move_targets. intros H. apply filter_In in H as [Hin H].
+  intros ->. unfold move_targets. intros H. apply filter_In in H as [Hin H].
   apply andb_true_iff in H as [H Hf]. apply andb_true_iff in H as [Hx Hs].
   apply negb_true_iff in Hx. apply negb_true_iff in Hs.
   assert (N : ~ In (sid dst) (stores_of (peers r))). { intros X. apply memZ_In in X. congruence. }
@@ -293,17 +290,30 @@ Qed.
 
 (* balance-leader / shuffle-leader / evict-leader / label: the new leader is a voter of the region on another store than
    the current leader's, and that store is up, not paused and does not reject leaders *)
-Theorem leader_target_good stores r dst :
-  In dst (leader_targets Gen_C11.balance_leader_flags stores r) ->
+Theorem leader_target_good flags stores r dst :
+  flags = [TransferLeader] ->
+  In dst (leader_targets flags stores r) ->
   (exists p, In p (peers r) /\ p_store p = sid dst /\ is_learner p = false)
   /\ sid dst <> leader_store r /\ up_store dst /\ s_pause dst = false /\ s_reject dst = false.
 Proof.
-  destruct leader_flags_ok as [-> _]. unfold leader_targets. intros H. apply filter_In in H as [_ H].
+  intros ->. unfold leader_targets. intros H. apply filter_In in H as [_ H].
   apply andb_true_iff in H as [Hex Hf]. apply existsb_exists in Hex as (p & Hp & Hc).
   apply andb_true_iff in Hc as [Hc Hl]. apply andb_true_iff in Hc as [Hst Hlr].
   apply Z.eqb_eq in Hst. apply negb_true_iff in Hlr. apply negb_true_iff in Hl. apply Z.eqb_neq in Hl.
   destruct (leader_filter_facts dst Hf) as (U & P & Rj).
   split; [exists p; repeat split; assumption|]. split; [rewrite <- Hst; exact Hl|]. split; [exact U|]. split; assumption.
+Qed.
+
+(* grant-leader (no store filter at all): still a voter of the region on another store than the leader's *)
+Theorem forced_leader_target stores r dst :
+  In dst (leader_targets [] stores r) ->
+  (exists p, In p (peers r) /\ p_store p = sid dst /\ is_learner p = false) /\ sid dst <> leader_store r.
+Proof.
+  unfold leader_targets. intros H. apply filter_In in H as [_ H].
+  apply andb_true_iff in H as [Hex _]. apply existsb_exists in Hex as (p & Hp & Hc).
+  apply andb_true_iff in Hc as [Hc Hl]. apply andb_true_iff in Hc as [Hst Hlr].
+  apply Z.eqb_eq in Hst. apply negb_true_iff in Hlr. apply negb_true_iff in Hl. apply Z.eqb_neq in Hl.
+  split; [exists p; repeat split; assumption|]. rewrite <- Hst. exact Hl.
 Qed.
 
 (* ---------- a peer move keeps the number of peers of every role and one peer per store ---------- *)
